@@ -464,7 +464,12 @@ func Explore(c *Check, tier string, seed int64) (total *Result, exhaustive bool,
 	}
 	r.dead = time.Now().Add(time.Duration(budget) * time.Second)
 	var serialQ []chunk
+	only := os.Getenv("VERIF_ONLY_SPACE") // maintainer aid: run the spaces whose name contains this text (never exhaustive)
 	for si, sp := range r.spaces {
+		if only != "" && !strings.Contains(sp.Name, only) {
+			r.skipped += sp.N
+			continue
+		}
 		ch := sp.Chunk
 		if ch <= 0 {
 			ch = 1000
